@@ -180,8 +180,8 @@ Proof.
 Qed.
 
 (* the node [walk] ends at does not defer *)
-Lemma walk_result st origin : forall f cur d r dn p t tr,
-  walk f st origin cur d r dn = Ok (p, t, tr) ->
+Lemma walk_result st : forall f cur d r dn p t tr,
+  walk f st cur d r dn = Ok (p, t, tr) ->
   forall d' r' m', find_trait st p t <> Some (Deleg d' r' m').
 Proof.
   induction f as [|f IH]; intros cur d r dn p t tr Hw; [discriminate|].
@@ -192,10 +192,10 @@ Proof.
 Qed.
 
 Definition objs_in_range (st : state) : Prop :=
-  forall f origin cur d r dn p t tr, walk f st origin cur d r dn = Ok (p, t, tr) -> True.
+  forall f cur d r dn p t tr, walk f st cur d r dn = Ok (p, t, tr) -> True.
 
 (* the invariant is about attributes with a forwarder: every deferring attribute listenable (the
-   default); listenable=False attributes are the subject of the finding del_not_listenable_refuted *)
+   default); listenable=False attributes are covered by the general invariant of Invariants2.v *)
 Definition all_listenable (st : state) : Prop := forall o n, listenable st o n = true.
 
 (* ----- every operation keeps the invariant ----- *)
@@ -210,8 +210,8 @@ Proof.
       apply inv_dict_set_plain; [exact Hi|]. intros; rewrite Htr; discriminate.
     + unfold set_plain. destruct (validate_link v); cbn [fst]; [|exact Hi].
       apply inv_dict_set_plain; [exact Hi|]. intros; rewrite Htr; discriminate.
-    + destruct (walk 100 st x x d r n) as [[[p t] tr]|e] eqn:Hw; cbn [fst]; [|exact Hi].
-      pose proof (walk_result _ _ _ _ _ _ _ _ _ _ Hw) as Hnd.
+    + destruct (walk 100 st x d r n) as [[[p t] tr]|e] eqn:Hw; cbn [fst]; [|exact Hi].
+      pose proof (walk_result _ _ _ _ _ _ _ _ _ Hw) as Hnd.
       destruct m.
       * unfold set_plain. destruct tr as [k dflt| |d' r' m'|].
         -- destruct (validate k v); cbn [fst]; [apply inv_dict_set_plain; assumption|exact Hi].
@@ -229,7 +229,7 @@ Proof.
     + exact Hi.
   - (* del *)
     unfold del_attr. destruct (find_trait st x n) as [[k dflt| |d r [|]|]|] eqn:Htr; cbn [fst]; try exact Hi.
-    destruct (walk 100 st x x d r n) as [[[p t] tr]|e] eqn:Hw; cbn [fst]; [|exact Hi].
+    destruct (walk 100 st x d r n) as [[[p t] tr]|e] eqn:Hw; cbn [fst]; [|exact Hi].
     rewrite (Hal x n).
     destruct (dict_get st x n) as [old|] eqn:Hd; cbn [fst].
     + eapply inv_local_delete; eauto.
@@ -246,7 +246,7 @@ Proof.
   - unfold set_attr. destruct (find_trait st x n) as [[k dflt| |d r m|]|]; cbn [fst]; try reflexivity.
     + unfold set_plain. destruct (validate k v); cbn; [apply update_length|reflexivity].
     + unfold set_plain. destruct (validate_link v); cbn; [apply update_length|reflexivity].
-    + destruct (walk 100 st x x d r n) as [[[p t] tr]|e]; cbn [fst]; [|reflexivity].
+    + destruct (walk 100 st x d r n) as [[[p t] tr]|e]; cbn [fst]; [|reflexivity].
       destruct m.
       * unfold set_plain. destruct tr as [k dflt| |d' r' m'|].
         -- destruct (validate k v); cbn; [apply update_length|reflexivity].
@@ -260,7 +260,7 @@ Proof.
         -- destruct (rd st x n); [|reflexivity]. cbn. apply update_length.
     + unfold set_plain. cbn. apply update_length.
   - unfold del_attr. destruct (find_trait st x n) as [[k dflt| |d r [|]|]|]; cbn [fst]; try reflexivity.
-    destruct (walk 100 st x x d r n) as [[[p t] tr]|e]; cbn [fst]; [|reflexivity].
+    destruct (walk 100 st x d r n) as [[[p t] tr]|e]; cbn [fst]; [|reflexivity].
     destruct (listenable st x n); destruct (dict_get st x n); cbn [fst];
       try (cbn; apply update_length); destruct tr; reflexivity.
 Qed.
@@ -284,7 +284,7 @@ Proof.
   - unfold set_attr. destruct (find_trait st x n) as [[k dflt| |d r m|]|]; cbn [fst]; try cls_leaf.
     + unfold set_plain. destruct (validate k v); cls_leaf.
     + unfold set_plain. destruct (validate_link v); cls_leaf.
-    + destruct (walk 100 st x x d r n) as [[[p t] tr]|e]; cbn [fst]; [|cls_leaf].
+    + destruct (walk 100 st x d r n) as [[[p t] tr]|e]; cbn [fst]; [|cls_leaf].
       destruct m.
       * unfold set_plain. destruct tr as [k dflt| |d' r' m'|].
         -- destruct (validate k v); cls_leaf.
@@ -298,7 +298,7 @@ Proof.
         -- destruct (rd st x n); cls_leaf.
     + unfold set_plain. cls_leaf.
   - unfold del_attr. destruct (find_trait st x n) as [[k dflt| |d r [|]|]|]; cbn [fst]; try cls_leaf.
-    destruct (walk 100 st x x d r n) as [[[p t] tr]|e]; cbn [fst]; [|cls_leaf].
+    destruct (walk 100 st x d r n) as [[[p t] tr]|e]; cbn [fst]; [|cls_leaf].
     destruct (listenable st x n); destruct (dict_get st x n); cbn [fst]; try cls_leaf; destruct tr; cls_leaf.
 Qed.
 
@@ -407,10 +407,10 @@ Proof.
   rewrite find_trait_dict_set, Hd. reflexivity.
 Qed.
 
-Lemma walk_dict_set st p t k dflt w origin :
+Lemma walk_dict_set st p t k dflt w :
   links_are_links st -> find_trait st p t = Some (Normal k dflt) ->
   forall f cur d r m dn, find_trait st cur dn = Some (Deleg d r m) ->
-    walk f (dict_set st p t w) origin cur d r dn = walk f st origin cur d r dn.
+    walk f (dict_set st p t w) cur d r dn = walk f st cur d r dn.
 Proof.
   intros Hlinks Hp. induction f as [|f IH]; intros cur d r m dn Htr; [reflexivity|].
   cbn [walk]. rewrite (rd_dict_set_link st p t k dflt w cur d Hp (Hlinks _ _ _ _ _ Htr)).
@@ -421,20 +421,20 @@ Proof.
 Qed.
 
 Theorem delegatesto_write_then_read st o n d r p t k dflt v w :
-  links_are_links st -> same_prefix st -> no_deferring_locals st ->
+  links_are_links st -> no_deferring_locals st ->
   find_trait st o n = Some (Deleg d r true) ->
-  walk 100 st o o d r n = Ok (p, t, Normal k dflt) ->
+  walk 100 st o d r n = Ok (p, t, Normal k dflt) ->
   validate k v = Some w -> (p < length (objs st))%nat ->
   let st' := fst (fst (set_attr st o n v)) in
   st' = dict_set st p t w /\ forall g, read (100 + S g) st' o n = Ok w.
 Proof.
-  intros Hlinks Hpre Hloc Htr Hw Hv Hp st'.
+  intros Hlinks Hloc Htr Hw Hv Hp st'.
   destruct (delegatesto_store st o n d r p t (Normal k dflt) v w Htr Hw Hv) as [Hst _].
   subst st'. rewrite Hst. split; [reflexivity|].
-  destruct (walk_read_agree st o Hlinks Hpre Hloc _ _ _ _ _ _ _ _ _ Htr Hw) as [Hterm _].
+  destruct (walk_read_agree st Hlinks Hloc _ _ _ _ _ _ _ _ _ Htr Hw) as [Hterm _].
   assert (find_trait st p t = Some (Normal k dflt)) as Hpt.
   { (* the trait returned by the walk is the class trait of the node *)
-    clear - Hw. revert Hw. generalize 100%nat as f. generalize o at 2 as cur. revert d r n.
+    clear - Hw. revert Hw. generalize 100%nat as f. generalize o as cur. revert d r n.
     intros d r n cur f. revert cur d r n.
     induction f as [|f IH]; intros cur d r n Hw; [discriminate|].
     cbn [walk] in Hw. destruct (rd st cur d) as [[z| | |p1]|e]; try discriminate.
@@ -444,15 +444,13 @@ Proof.
   set (st1 := dict_set st p t w).
   assert (links_are_links st1) as H1.
   { intros a b c e f Ht. unfold st1 in *. rewrite find_trait_dict_set in *. eapply Hlinks. exact Ht. }
-  assert (same_prefix st1) as H2.
-  { intros a b. unfold st1. rewrite !cls_of_dict_set. apply Hpre. }
   assert (no_deferring_locals st1) as H3.
   { intros a b c e f Ht. unfold st1 in *. rewrite find_trait_dict_set in Ht.
     rewrite dict_get_dict_set_other; [eapply Hloc; exact Ht|].
     apply (node_neq_by_trait st). rewrite Ht, Hpt. discriminate. }
-  assert (walk 100 st1 o o d r n = Ok (p, t, Normal k dflt)) as Hw1.
+  assert (walk 100 st1 o d r n = Ok (p, t, Normal k dflt)) as Hw1.
   { unfold st1. erewrite walk_dict_set; eauto. }
   assert (find_trait st1 o n = Some (Deleg d r true)) as Htr1 by (unfold st1; rewrite find_trait_dict_set; exact Htr).
-  destruct (walk_read_agree st1 o H1 H2 H3 _ _ _ _ _ _ _ _ _ Htr1 Hw1) as [_ Hread].
+  destruct (walk_read_agree st1 H1 H3 _ _ _ _ _ _ _ _ _ Htr1 Hw1) as [_ Hread].
   intros g. rewrite Hread. apply read_local. apply dict_get_dict_set_same. exact Hp.
 Qed.
